@@ -11,6 +11,7 @@ package main
 import (
 	"encoding/json"
 	"fmt"
+	"strings"
 	"time"
 
 	"verif/runner"
@@ -58,9 +59,10 @@ func groupsOf() (order []string, m map[string][]*spec) {
 	return
 }
 
-// valueAssignments: totals for the keys. Value sorts see every assignment over
-// {1,2} (sets of 5: four patterns); name sorts see one fixed assignment.
-func valueAssignments(mode string, n int) [][]int64 {
+// valueAssignments: totals for the keys. Name sorts see one alternating
+// assignment. Value sorts see every assignment over the view's totals ({1,2}:
+// all 2^n, four patterns for sets of 5; the huge-totals view: all 6^n).
+func valueAssignments(mode string, n int, vw *view) [][]int64 {
 	if mode != "value" {
 		v := make([]int64, n)
 		for i := range v {
@@ -70,14 +72,25 @@ func valueAssignments(mode string, n int) [][]int64 {
 	}
 	var out [][]int64
 	if n <= 4 {
-		for m := 0; m < 1<<n; m++ {
+		cur := make([]int, n)
+		for {
 			v := make([]int64, n)
-			for i := range v {
-				v[i] = int64(1 + (m>>i)&1)
+			for i, c := range cur {
+				v[i] = vw.values[c]
 			}
 			out = append(out, v)
+			i := n - 1
+			for ; i >= 0; i-- {
+				cur[i]++
+				if cur[i] < len(vw.values) {
+					break
+				}
+				cur[i] = 0
+			}
+			if i < 0 {
+				return out
+			}
 		}
-		return out
 	}
 	for p := 0; p < 4; p++ {
 		v := make([]int64, n)
@@ -132,13 +145,20 @@ func forEachSubset(n, k int, f func(idx []int) bool) {
 	rec(0, 0)
 }
 
-type bounds struct{ maxSet, reuseSame, reuseOther, agg int }
+type bounds struct{ reuseSame, reuseOther, agg int }
 
 func tierBounds(quick bool) bounds {
 	if quick {
-		return bounds{maxSet: 4, reuseSame: 3, reuseOther: 2, agg: 3}
+		return bounds{reuseSame: 3, reuseOther: 2, agg: 3}
 	}
-	return bounds{maxSet: 5, reuseSame: 4, reuseOther: 3, agg: 4}
+	return bounds{reuseSame: 4, reuseOther: 3, agg: 4}
+}
+
+func (vw *view) maxSet(quick bool) int {
+	if quick {
+		return vw.maxSetQ
+	}
+	return vw.maxSetT
 }
 
 func report(w *runner.W, c Case, fs ...*fail) {
@@ -156,190 +176,205 @@ func worker(w *runner.W) {
 	expired := false
 
 	// ---- A. data sets: subsets x values x specs x permutations (+ re-use, aggregators)
-	for n := 0; n <= b.maxSet && !expired; n++ {
-		forEachSubset(len(pool), n, func(idx []int) bool {
-			caseNo++
-			if !w.Owns(caseNo) {
-				return true
-			}
-			if w.Expired() {
-				expired = true
-				return false
-			}
-			for _, gname := range groupOrder {
-				group := groups[gname]
-				for _, vals := range valueAssignments(group[0].mode, n) {
-					data := make([]nv, n)
-					for i, k := range idx {
-						data[i] = nv{k, vals[i]}
-					}
-					canon := map[*spec][]nv{}
-					for _, sp := range group {
-						c := mkCase("data", sp.name, data)
-						w.SetCase(func() any { return c })
-						cn, sorts, fs := checkData(sp, data)
-						w.Eval(n >= 2)
-						w.Add("sorts", int64(sorts))
-						report(w, c, fs...)
-						canon[sp] = cn
-						if cn != nil {
-							w.Outcome(sp.mode, fmt.Sprint(sp.desc), fmt.Sprint(names(cn)))
-							if w.WantSample() && n == 4 && sp.mode != "text" && caseNo%211 == 0 {
-								w.Sample(map[string]any{"case": c, "sorted": names(cn)})
-							}
-						} else {
-							ks, vs := keysOf(data)
-							lv, cl := classify(sp.mode, ks, vs)
-							w.Outcome(sp.mode, "no-canonical-order", lv, cl)
-						}
-						if cn == nil {
-							continue
-						}
-						if n >= 1 && n <= b.agg {
-							ca := mkCase("aggregators", sp.name, data)
-							w.SetCase(func() any { return ca })
-							runs, fs := checkAggregators(sp, data, cn)
-							w.Add("aggregator_runs", int64(runs))
-							report(w, ca, fs...)
-						}
-						if !sp.reuse || n < 2 {
-							continue
-						}
-						if sp.mode == "value" && !reuseAssignment(vals) {
-							continue // value sorts take part in re-use with two of the assignments
-						}
-						// re-use on the same / grown data: the instance sorted the data, or
-						// the data without one key, in any order before
-						if n <= b.reuseSame {
-							var earlierSets [][]nv
-							earlierSets = append(earlierSets, data)
-							for drop := 0; drop < n; drop++ {
-								var e []nv
-								for i, x := range data {
-									if i != drop {
-										e = append(e, x)
-									}
-								}
-								earlierSets = append(earlierSets, e)
-							}
-							for ei, es := range earlierSets {
-								rel := "the same data"
-								if ei > 0 {
-									rel = "the data before one more key arrived"
-								}
-								forEachPerm(len(es), func(p []int) bool {
-									earlier := permuted(es, p)
-									sorts, f := checkReuse(sp, earlier, data, cn, rel)
-									w.Add("sorts", int64(sorts))
-									w.Add("reuse_cases", 1)
-									if f != nil {
-										c := mkCase("reuse", sp.name, data)
-										c.Relation = rel
-										for _, x := range earlier {
-											c.Earlier = append(c.Earlier, pool[x.k].s)
-											c.EarlierV = append(c.EarlierV, x.v)
-										}
-										report(w, c, f)
-									}
-									return true
-								})
-							}
-						}
-						// re-use after unrelated data (spark trims columns, so a sorter may
-						// have seen keys that are gone): any ordered pair of pool keys
-						if n <= b.reuseOther {
-							for x := range pool {
-								for y := range pool {
-									if x == y {
-										continue
-									}
-									earlier := []nv{{x, 1}, {y, 2}}
-									sorts, f := checkReuse(sp, earlier, data, cn, "other data")
-									w.Add("sorts", int64(sorts))
-									w.Add("reuse_cases", 1)
-									if f != nil {
-										c := mkCase("reuse", sp.name, data)
-										c.Relation = "other data"
-										c.Earlier = []string{pool[x].s, pool[y].s}
-										c.EarlierV = []int64{1, 2}
-										report(w, c, f)
-									}
-								}
-							}
-						}
-					}
-					cd := mkCase("directions", gname, data)
-					report(w, cd, checkDirections(group, canon, data)...)
+	for vi := range views {
+		vw := &views[vi]
+		for n := 0; n <= vw.maxSet(w.Quick()) && !expired; n++ {
+			forEachSubset(len(vw.keys), n, func(sub []int) bool {
+				idx := make([]int, n)
+				for i, j := range sub {
+					idx[i] = vw.keys[j]
 				}
-			}
-			w.Add("key_sets", 1)
-			return true
-		})
-	}
-
-	// ---- B. comparator axioms over the whole pool
-	for _, sp := range specs {
-		vals := []int64{1}
-		if sp.mode == "value" {
-			vals = []int64{1, 2}
-		}
-		for a := range pool {
-			caseNo++
-			if expired || !w.Owns(caseNo) {
-				continue
-			}
-			if w.Expired() {
-				expired = true
-				break
-			}
-			for bk := range pool {
-				if bk == a {
-					continue
+				caseNo++
+				if !w.Owns(caseNo) {
+					return true
 				}
-				for _, va := range vals {
-					for _, vb := range vals {
-						x, y := nv{a, va}, nv{bk, vb}
-						if a < bk {
-							c := mkCase("pair", sp.name, []nv{x, y})
+				if w.Expired() {
+					expired = true
+					return false
+				}
+				for _, gname := range groupOrder {
+					group := groups[gname]
+					if vw.valueOnly && group[0].mode != "value" {
+						continue
+					}
+					for _, vals := range valueAssignments(group[0].mode, n, vw) {
+						data := make([]nv, n)
+						for i, k := range idx {
+							data[i] = nv{k, vals[i]}
+						}
+						canon := map[*spec][]nv{}
+						for _, sp := range group {
+							c := mkCase("data", sp.name, data)
 							w.SetCase(func() any { return c })
-							report(w, c, checkPair(sp, x, y))
-							w.Eval(true)
-							w.Add("pairs", 1)
-						}
-						for ck := range pool {
-							if ck == a || ck == bk {
+							cn, sorts, fs := checkData(sp, data)
+							w.Eval(n >= 2)
+							w.Add("sorts", int64(sorts))
+							report(w, c, fs...)
+							canon[sp] = cn
+							if cn != nil {
+								w.Outcome(sp.mode, fmt.Sprint(sp.desc), fmt.Sprint(names(cn)))
+								if w.WantSample() && n == 4 && sp.mode != "text" && caseNo%211 == 0 {
+									w.Sample(map[string]any{"case": c, "sorted": names(cn)})
+								}
+							} else {
+								ks, vs := keysOf(data)
+								lv, cl := classify(sp.mode, ks, vs)
+								w.Outcome(sp.mode, "no-canonical-order", lv, cl)
+							}
+							if cn == nil {
 								continue
 							}
-							for _, vc := range vals {
-								z := nv{ck, vc}
-								if f := checkTriple(sp, x, y, z); f != nil {
-									report(w, mkCase("triple", sp.name, []nv{x, y, z}), f)
+							if n >= 1 && n <= b.agg {
+								ca := mkCase("aggregators", sp.name, data)
+								w.SetCase(func() any { return ca })
+								runs, fs := checkAggregators(sp, data, cn)
+								w.Add("aggregator_runs", int64(runs))
+								report(w, ca, fs...)
+							}
+							if !sp.reuse || n < 2 || vw.valueOnly {
+								continue
+							}
+							if sp.mode == "value" && !reuseAssignment(vals) {
+								continue // value sorts take part in re-use with two of the assignments
+							}
+							// re-use on the same / grown data: the instance sorted the data, or
+							// the data without one key, in any order before
+							if n <= b.reuseSame {
+								var earlierSets [][]nv
+								earlierSets = append(earlierSets, data)
+								for drop := 0; drop < n; drop++ {
+									var e []nv
+									for i, x := range data {
+										if i != drop {
+											e = append(e, x)
+										}
+									}
+									earlierSets = append(earlierSets, e)
 								}
-								w.Add("triples", 1)
+								for ei, es := range earlierSets {
+									rel := "the same data"
+									if ei > 0 {
+										rel = "the data before one more key arrived"
+									}
+									forEachPerm(len(es), func(p []int) bool {
+										earlier := permuted(es, p)
+										sorts, f := checkReuse(sp, earlier, data, cn, rel)
+										w.Add("sorts", int64(sorts))
+										w.Add("reuse_cases", 1)
+										if f != nil {
+											c := mkCase("reuse", sp.name, data)
+											c.Relation = rel
+											for _, x := range earlier {
+												c.Earlier = append(c.Earlier, pool[x.k].s)
+												c.EarlierV = append(c.EarlierV, x.v)
+											}
+											report(w, c, f)
+										}
+										return true
+									})
+								}
+							}
+							// re-use after unrelated data (spark trims columns, so a sorter may
+							// have seen keys that are gone): any ordered pair of pool keys
+							if n <= b.reuseOther {
+								for _, x := range vw.keys {
+									for _, y := range vw.keys {
+										if x == y {
+											continue
+										}
+										earlier := []nv{{x, 1}, {y, 2}}
+										sorts, f := checkReuse(sp, earlier, data, cn, "other data")
+										w.Add("sorts", int64(sorts))
+										w.Add("reuse_cases", 1)
+										if f != nil {
+											c := mkCase("reuse", sp.name, data)
+											c.Relation = "other data"
+											c.Earlier = []string{pool[x].s, pool[y].s}
+											c.EarlierV = []int64{1, 2}
+											report(w, c, f)
+										}
+									}
+								}
+							}
+						}
+						cd := mkCase("directions", gname, data)
+						report(w, cd, checkDirections(group, canon, data)...)
+					}
+				}
+				w.Add("key_sets", 1)
+				return true
+			})
+		}
+	}
+
+	// ---- B. comparator axioms over every view
+	for vi := range views {
+		vw := &views[vi]
+		for _, sp := range specs {
+			vals := []int64{1}
+			if sp.mode == "value" {
+				vals = vw.values
+			} else if vw.valueOnly {
+				continue
+			}
+			for _, a := range vw.keys {
+				caseNo++
+				if expired || !w.Owns(caseNo) {
+					continue
+				}
+				if w.Expired() {
+					expired = true
+					break
+				}
+				for _, bk := range vw.keys {
+					if bk == a {
+						continue
+					}
+					for _, va := range vals {
+						for _, vb := range vals {
+							x, y := nv{a, va}, nv{bk, vb}
+							if a < bk {
+								c := mkCase("pair", sp.name, []nv{x, y})
+								w.SetCase(func() any { return c })
+								report(w, c, checkPair(sp, x, y))
+								w.Eval(true)
+								w.Add("pairs", 1)
+							}
+							for _, ck := range vw.keys {
+								if ck == a || ck == bk {
+									continue
+								}
+								for _, vc := range vals {
+									z := nv{ck, vc}
+									if f := checkTriple(sp, x, y, z); f != nil {
+										report(w, mkCase("triple", sp.name, []nv{x, y, z}), f)
+									}
+									w.Add("triples", 1)
+								}
 							}
 						}
 					}
 				}
-			}
-			// history: (c,d) compared first by the same instance, then (a,b)
-			for bk := range pool {
-				if bk == a {
-					continue
-				}
-				for ck := range pool {
-					for dk := range pool {
-						if ck == dk {
-							continue
+				// history: (c,d) compared first by the same instance, then (a,b)
+				for _, bk := range vw.keys {
+					if bk == a {
+						continue
+					}
+					for _, ck := range vw.keys {
+						for _, dk := range vw.keys {
+							if ck == dk {
+								continue
+							}
+							cc, dd, x, y := nv{ck, 1}, nv{dk, vals[len(vals)-1]}, nv{a, 1}, nv{bk, 1}
+							if f := checkHistory(sp, cc, dd, x, y); f != nil {
+								report(w, mkCase("history", sp.name, []nv{cc, dd, x, y}), f)
+							}
+							w.Add("histories", 1)
 						}
-						cc, dd, x, y := nv{ck, 1}, nv{dk, vals[len(vals)-1]}, nv{a, 1}, nv{bk, 1}
-						if f := checkHistory(sp, cc, dd, x, y); f != nil {
-							report(w, mkCase("history", sp.name, []nv{cc, dd, x, y}), f)
-						}
-						w.Add("histories", 1)
 					}
 				}
+				w.Eval(true)
 			}
-			w.Eval(true)
 		}
 	}
 }
@@ -408,7 +443,22 @@ func main() {
 			for _, k := range pool {
 				ks = append(ks, fmt.Sprintf("%q", k.s))
 			}
-			return fmt.Sprintf("key pool of %d %v; every subset of size 0..%d with totals from {1,2} (value sorts: every assignment, 4 patterns for sets of 5; name sorts: one alternating assignment) x every permutation handed to sorting.SortBy x %d sorter specs: helpers.BuildSorter names {text,'',numeric,contextual,context,date,value} x {'',:asc,:desc,:rev,:reverse}, 3 mixed-case spellings, and the package sorters used by pkg/csv and cmd/reduce (NVValueSorter, NVNameSorter, NVSmartSorter, ByName, ByContextual, Reverse(ByContextual), ByDateWithContextual), each permutation with a fresh sorter instance: one output sequence per data set, semantic clause of the mode on it, direction relations inside each name group; re-use of one instance (specs without aliases; value sorts with the all-1 and the alternating totals): first every permutation of the same data or of the data minus one key (sets up to %d), or any ordered pair of pool keys (sets up to %d), then every permutation of the data; the same data through MatchCounter.ItemsSortedBy, SubKeyCounter.ItemsSorted, TableAggregator.OrderedRows/OrderedColumns and AccumulatingGroup.Groups (with and without sort expression) in two arrival orders (sets up to %d, only where the canonical sequence exists); comparator axioms with a fresh instance per decision on all ordered pairs and triples of distinct pool keys (value sorts: all totals from {1,2}), and every decision repeated on an instance that made any one other comparison before (all 4-tuples). evaluation = one (spec, data set) with all its permutations, or one (spec, first key) axiom block; non-trivial = at least 2 keys", len(pool), ks, b.maxSet, len(specs), b.reuseSame, b.reuseOther, b.agg)
+			quick := tier != "thorough"
+			var vs []string
+			for i := range views {
+				vw := &views[i]
+				var names []string
+				for _, k := range vw.keys {
+					names = append(names, fmt.Sprintf("%q", pool[k].s))
+				}
+				only := ""
+				if vw.valueOnly {
+					only = ", value sorts only, no re-use"
+				}
+				vs = append(vs, fmt.Sprintf("view %s: keys %v, subsets of size 0..%d, value-sort totals %v%s", vw.name, names, vw.maxSet(quick), vw.values, only))
+			}
+			_ = ks
+			return fmt.Sprintf("key pool of %d keys in %d views (%s); inside each view: every subset up to the view's size (value sorts: every assignment of the view's totals to the keys, 4 patterns over {1,2} for sets of 5; name sorts: one alternating 1,2 assignment) x every permutation handed to sorting.SortBy x %d sorter specs: helpers.BuildSorter names {text,'',numeric,contextual,context,date,value} x {'',:asc,:desc,:rev,:reverse}, 3 mixed-case spellings, and the package sorters used by pkg/csv and cmd/reduce (NVValueSorter, NVNameSorter, NVSmartSorter, ByName, ByContextual, Reverse(ByContextual), ByDateWithContextual), each permutation with a fresh sorter instance: one output sequence per data set, semantic clause of the mode on it, direction relations inside each name group; re-use of one instance (specs without aliases; value sorts with the all-1 and the alternating totals): first every permutation of the same data or of the data minus one key (sets up to %d), or any ordered pair of keys of the view (sets up to %d), then every permutation of the data; the same data through MatchCounter.ItemsSortedBy, SubKeyCounter.ItemsSorted, TableAggregator.OrderedRows/OrderedColumns and AccumulatingGroup.Groups (with and without sort expression) in two arrival orders (sets up to %d, only where the canonical sequence exists); comparator axioms with a fresh instance per decision on all ordered pairs and triples of distinct keys of each view (value sorts: all totals of the view), and every decision repeated on an instance that made any one other comparison before (all 4-tuples of the view). evaluation = one (spec, data set) with all its permutations, or one (spec, first key) axiom block; non-trivial = at least 2 keys", len(pool), len(views), strings.Join(vs, "; "), len(specs), b.reuseSame, b.reuseOther, b.agg)
 		},
 		Assumptions: func(string) []string {
 			return []string{
